@@ -31,7 +31,9 @@ class ParallelSourcePlugin(Plugin):
         while True:
             # Scan for plugins we can inline
             for p in plugins.values():
-                if p.parallel and all([d in sub_plugins for d in p.depends_on]):
+                # (a plugin without dependencies is another source with its own chunking:
+                # it vacuously satisfies the all() below but cannot run in lockstep with this one)
+                if p.parallel and p.depends_on and all([d in sub_plugins for d in p.depends_on]):
                     for d in p.provides:
                         sub_plugins[d] = p
                         if d in plugins:
